@@ -93,7 +93,7 @@ theorem prim_res (a b : State) (hl : C05.Inv a) (h : Res a) (p : Prim a b) : Res
         aDiscRespArr, aStartExit, aStartFutQuiet, aStartDone, aStartToSocket, startOkPath, aStartAttach, aStartFutCb, aSockOpened,
         aFinExit, aFinFutQuiet, aFinDone, aTrCancelled, aFhAttach, aFinToReady, aHsEnter, aHelloStart, aHelloFinally,
         helloOkPath, aKeepalive, aFinFutCb, aConnected, aDiscDone, aDiscRaw, aForceRaw, aDiscReqStart, aDiscWaitOver, aDiscCancelledW,
-        aDiscCancelledR, aDiscReqFinally, aRefused, aStartBegin, aResolveSet, aSockSet, aUserCancelStart, aFinishBegin,
+        aDiscCancelledR, aDiscReqFinally, aRefused, aStartBegin, aResolveSet, aSockSet, aSockFaulty, aSockFaultClose, aSockAttachOnly, aUserCancelStart, aFinishBegin,
         aConnMadeFail, aConnMadeOk, aReadyOk, aUserCancelFinish, aCbStart, aCbFinish, aDiscBegin, aCbDiscWait,
         aDiscCancelW, aDiscCancelR, aFireResolve, aFireTcp, aFireHs, aFireHello, aPingRearm, aPingPend, aPongOff,
         aFireDiscWait, aFireDiscResp, aSetWrite, startReq, finishReq, resolveReq, failWaiter, hsComplete] <;>
